@@ -123,7 +123,8 @@ def check_C03(tier, seed):
     drive_and_judge(rep, "C03", cases_from_S(r1.cases if quick else r1.cases[::4], "shape", "stages-shape"), "shape", keep)
     drive_and_judge(rep, "C03", cases_from_S(r2.cases, "ctx", "stages-ctx"), "ctx", keep)
     rc = random_shader_cases(rng, 1200 if quick else 30000, "rnd", "stages-random", n_fn=(0, 6), n_entry=(1, 5), depth=3, push=0.5)
-    drive_and_judge(rep, "C03", rc + F.deep_use_cases(push=False) + F.deep_use_cases(push=True) + F.many_function_cases(), "random", keep)
+    drive_and_judge(rep, "C03", rc + F.deep_use_cases(push=False) + F.deep_use_cases(push=True) + F.many_function_cases()
+                    + [{"id": "ifsplit-%d" % i, "family": "calls-in-both-arms", "S": F.if_split_shader(ra, rb_), "opts": F.opts()} for i, (ra, rb_) in enumerate([(False, False), (True, False), (False, True), (True, True)])], "random", keep)
     # a subset is compiled against the recording device: the visibility VALUES the generated code passes, not their tokens
     sub = cases_from_S(r2.cases[::(60 if quick else 6)], "ctxr", "stages-ctx-recorded", vary_validate=False) + [dict(c, id="r" + c["id"], family="stages-random-recorded") for c in rc[:(80 if quick else 1500)]]
     compiled_and_judge(rep, "C03", sub, "recorded", "shim", {"pipeline_layout"}, keep=["groups"], enforce="C03R")
@@ -853,6 +854,8 @@ def check_C02(tier, seed):
     r2 = run_mc("MC_StagesCtx.tla", "MC_StagesCtx.cfg", workers=8, consts={"DA": "1", "DC": "1" if quick else "2", "Memo": "TRUE" if MEMO else "FALSE"})
     rep.add_mc("MC_StagesCtx", r2, "exported shaders validated by real pipeline creation")
     ctx = cases_from_S(r2.cases[::(2 if quick else 1)], "ctx", "stages-ctx", vary_validate=False)
+    for i, (ra, rb_) in enumerate([(False, False), (True, False), (False, True), (True, True)]):
+        ctx.append({"id": "ifsplit-%d" % i, "family": "calls-in-both-arms", "S": F.if_split_shader(ra, rb_), "opts": F.opts()})
     # buffers above 64 KiB (no limit of any device may leak into the layout)
     for i, (sp, n_) in enumerate([("uniform", 4097), ("uniform", 4096), ("storage_r", 4097), ("storage_rw", 70000)]):
         B = F.bgd_shader([{"g": 0, "b": 0}, {"g": 0, "b": 1}], use=True, tys=[{"k": "array", "n": n_, "e": F.VEC4}, F.VEC4])
@@ -990,7 +993,7 @@ def check_C04(tier, seed):
     cases = []
     for i, e in enumerate(okseq[:(150 if quick else 3000)]):
         # sparse indices: stretch binding b to a larger, order-preserving or order-reversing index
-        stretch = [lambda b: b, lambda b: 3 * b + 1, lambda b: 9 - 4 * b, lambda b: 16777216 + b, lambda b: 4294967295 - b][i % 5]
+        stretch = [lambda b: b, lambda b: 3 * b + 1, lambda b: 9 - 4 * b, lambda b: 16777216 + b, lambda b: 4294967295 - b, lambda b: b if b == 0 else 16777216 * b + b, lambda b: 65536 * b + (1 - b % 2)][i % 7]
         decls = [{"g": d["g"], "b": stretch(d["b"])} for d in e["decls"]]
         S = F.bgd_shader(decls, use=True, tys=[kinds[(i + j) % len(kinds)] for j in range(len(decls))])
         for j, g in enumerate(S["globals"]):
